@@ -366,9 +366,10 @@ class AttributeCollection(MutableMapping[int, Attribute]):
     @classmethod
     def unpack(cls, data: Buffer, negotiated: Negotiated) -> AttributeCollection:
         # what the same octets mean depends on the session: AS numbers are read on 2 or 4 octets and AIGP
-        # is only kept when enabled.  The cache compared the octets alone, so an attribute set decoded on an
-        # ASN4 session was handed unchanged to a 2 octet AS session which received the same bytes next.
-        context = (bool(negotiated.asn4), bool(negotiated.aigp))
+        # is only kept when enabled (configured, or IBGP: see AIGP.unpack_attribute).  The cache compared the
+        # octets alone, so an attribute set decoded on an ASN4 session was handed unchanged to a 2 octet AS
+        # session which received the same bytes next.
+        context = (bool(negotiated.asn4), bool(negotiated.aigp or negotiated.is_ibgp))
         if cls.cached and data == cls.previous and context == cls.previous_context:
             return cls.cached
 
